@@ -4,3 +4,5 @@ import CheetahModel.Properties.C01
 import CheetahModel.Properties.C08
 import CheetahModel.Properties.C06
 import CheetahModel.Properties.C10
+import CheetahModel.Properties.C18
+import CheetahModel.Properties.C07
